@@ -99,7 +99,7 @@ func (v *Value) String() string {
 	case IntValue, FloatValue, EnumValue, BooleanValue, NullValue:
 		return v.Raw
 	case StringValue, BlockValue:
-		return strconv.Quote(v.Raw)
+		return quoteString(v.Raw)
 	case ListValue:
 		var val []string
 		for _, elem := range v.Children {
@@ -115,6 +115,42 @@ func (v *Value) String() string {
 	default:
 		panic(fmt.Errorf("unknown value kind %d", v.Kind))
 	}
+}
+
+// quoteString writes s as a GraphQL string literal. Only the escapes of the
+// GraphQL grammar are used (strconv.Quote also emits \a, \v, \x.. and \U........,
+// which a GraphQL lexer rejects); every other byte is written as it is, so that
+// lexing the literal gives back s byte for byte.
+func quoteString(s string) string {
+	var sb strings.Builder
+	sb.Grow(len(s) + 2)
+	sb.WriteByte('"')
+	for i := 0; i < len(s); i++ {
+		switch c := s[i]; {
+		case c == '"':
+			sb.WriteString(`\"`)
+		case c == '\\':
+			sb.WriteString(`\\`)
+		case c == '\b':
+			sb.WriteString(`\b`)
+		case c == '\f':
+			sb.WriteString(`\f`)
+		case c == '\n':
+			sb.WriteString(`\n`)
+		case c == '\r':
+			sb.WriteString(`\r`)
+		case c == '\t':
+			sb.WriteString(`\t`)
+		case c < 0x20:
+			sb.WriteString(`\u00`)
+			sb.WriteByte("0123456789abcdef"[c>>4])
+			sb.WriteByte("0123456789abcdef"[c&0xf])
+		default:
+			sb.WriteByte(c)
+		}
+	}
+	sb.WriteByte('"')
+	return sb.String()
 }
 
 func (v *Value) Dump() string {
